@@ -4,6 +4,7 @@
 //!   mbn-dst --replay <file> [--quiet]
 //!   mbn-dst --worker <property> <tier> <seed> <start> <step> <end>   (internal)
 
+mod codec;
 mod common;
 mod distsim;
 mod drawspace;
@@ -21,6 +22,9 @@ mod sup;
 
 use sup::{Engine, Tier};
 
+#[global_allocator]
+static ALLOC: codec::CountingAlloc = codec::CountingAlloc;
+
 fn engine_for(prop: &str) -> Option<Box<dyn Engine>> {
     use props_fw::FwEngine;
     Some(match prop {
@@ -34,6 +38,7 @@ fn engine_for(prop: &str) -> Option<Box<dyn Engine>> {
         "C10" => Box::new(FwEngine(props_more::C10)),
         "C06" => Box::new(drawspace::C06),
         "C05" => Box::new(FwEngine(props_ref::C05)),
+        "C11" => Box::new(codec::C11),
         "C13" => Box::new(distsim::C13),
         "C14" => Box::new(props_sim::SimEngine(props_sim::C14)),
         "C15" => Box::new(props_sim::SimEngine(props_sim::C15)),
